@@ -78,6 +78,7 @@ def main() -> int:
 
     status = 0
     reported = 0
+    unstable = 0
     for key in sorted(groups, key=lambda k: groups[k][0].size):
         fl = groups[key][0]
         # determinism gate: the failing case must fail again, identically, when replayed alone
@@ -89,7 +90,7 @@ def main() -> int:
         if not again or not any(a.kind == fl.kind for a in again):
             print(f'NONDETERMINISM property={prop} kind={fl.kind}: the recorded case did not fail again on replay '
                   f'(case={core.jdump(fl.case)[:300]})', flush=True)
-            status = max(status, 2)
+            unstable += 1
             continue
         if reported < args.max_report:
             path = core.write_replay(prop, fl)
@@ -98,6 +99,11 @@ def main() -> int:
             print('  ' + fl.detail.replace('\n', '\n  ')[:1200])
             reported += 1
         status = max(status, 1)
+    if unstable and status == 0:
+        # nothing was confirmed by a stand-alone replay: the harness (or state carried between cases) is at fault, not a
+        # verdict about the property - exit 2.  When at least one failure WAS confirmed, the violation stands (exit 1) and
+        # the unconfirmed groups above are reported as additional, order-dependent symptoms.
+        status = 2
     if len(groups) > reported and status == 1:
         print(f'  (+{len(groups) - reported} further failing groups not printed)')
 
